@@ -27,6 +27,9 @@ CHECKS = {
             "text": "Plans are applied with ideal results through a model apply and reconciled again: no further changes, same conflict roots, two-way endpoints agree outside conflicts."},
     "C05": {"level": "fault_enumeration", "steps": RECONCILE(), "technique": PBT + "; enumeration of per-transition outcomes", "note": TREE_NOTE,
             "text": "For each plan every vector of transition outcomes (nothing, Old, New, every partial removal/creation) is enumerated (full product for small plans, deterministic sample beyond) and core.Apply's result is validated and compared with the reported outcomes."},
+    "C07": {"level": "exploration", "steps": [step("./c07_tree/", shards={"thorough": 8}, timeout={"quick": 600, "thorough": 3600})],
+            "technique": PBT + "; round-trip (diff/apply) and aliasing metamorphic checks", "note": TREE_NOTE,
+            "text": "All ordered pairs of bounded trees (incl. untracked/problematic/phantom) and random larger pairs: Apply(x,Diff(x,y))==y, Diff(x,x) empty, all four Copy behaviours stay equal to a pre-mutation rendering after the original is mutated, Apply equals a model apply on multi-change scripts and mutates nothing, filter and Count equal independent implementations."},
     "C06": {"level": "exploration", "steps": RECONCILE(), "technique": PBT, "note": TREE_NOTE,
             "text": "Same enumeration: no two actions on equal or nested paths, every action sits at a first disagreement found by an independent walker, conflicts have changes on both sides within their root."},
 }
